@@ -188,4 +188,21 @@ theorem event_layout_from_source (id pk sig : Bytes) (kind t : Nat) (tagBytes co
     eventDecodeAt Src.evReads b = eventDecode b :=
   ⟨event_writer_from_source id pk sig kind t tagBytes content, rfl, event_readers_from_source b⟩
 
+/-- the tag section the theorems above are about is the one `tags.rs` writes and reads today: `Tags::output_size_needed` (its additions,
+translated on every run) is the model's size for every list of tags; `Tags::from_parts` refuses exactly a section beyond `u16::MAX` or a
+short buffer and otherwise starts the buffer with the source's header, the offset table from the source's first `p`, and the tags; and
+`delineate` / `count` / `TagsIter::next` / `TagsStringIter::next` read where the model's decoder reads, on every input -/
+theorem tags_layout_from_source (ts : TagsRec) (buf inp : Bytes) :
+    Src.tagsSize ts = tagsSize ts ∧
+    (tagsFromParts ts buf =
+      if Src.tagsRejects (Src.tagsSize ts) buf.length then .err
+      else .ok (Src.tagsHeader (Src.tagsSize ts) ts.length ++ encOffsets (Src.tagsBodyStart ts.length) ts ++ encTagsBody ts
+                ++ buf.drop (Src.tagsSize ts))) ∧
+    tagsReadAt Src.tagReads inp =
+      (match tagsDelineate inp with
+       | .ok sec => .ok (sec, tagsDecode sec)
+       | .err => .err
+       | .panic => .panic) :=
+  ⟨tags_size_from_source ts, tags_from_parts_from_source ts buf, tag_readers_from_source inp⟩
+
 end Pocket.C02
